@@ -238,6 +238,19 @@ def world_plans(draw, tier):
     knobs = {'scope': draw(st.sampled_from(['yatiml', 'core', 'core', 'all'])),
              'granularity': draw(st.sampled_from(
                  ['line'] * 6 + ['opcode'] * (3 if tier == 'thorough' else 1)))}
+    twin_scenario = K > 1 and draw(st.integers(0, 11)) == 0
+    if twin_scenario:
+        # two threads create the very same function at the same time and use it at once
+        proto = draw(mk_ops(specs, next_slot))
+        for t in range(2):
+            mk = dict(proto, slot=next_slot)
+            next_slot += 1
+            first = [mk]
+            for i in range(draw(st.integers(1, 2))):
+                op = draw(load_ops(specs, mk)) if mk['kind'] == 'load' else draw(dump_ops(specs, mk, shared))
+                op['file'] = 'cfg.t{}x{}'.format(t, i)
+                first.append(op)
+            threads[t] = first + threads[t][:2]
     tape = draw(tapes(tier)) if K > 1 else {'entries': [], 'tail': None}
     # the caller keeps the exceptions of failed calls alive until the end of the run
     knobs['retain_exc'] = draw(st.booleans())
@@ -249,6 +262,8 @@ def world_plans(draw, tier):
         # write-point-directed schedules derived from a profiling run
         knobs['sweep'] = draw(st.sampled_from(
             [0, 0, 0, 6, 12] if tier == 'quick' else [0, 0, 12, 24, 48]))
+        if twin_scenario:
+            knobs['sweep'] = max(knobs['sweep'], 12)
         if draw(st.integers(0, 19 if tier == 'quick' else 5)) == 0:
             # single pre-emption at evenly spaced yield points of one thread
             knobs['stride'] = {'thread': draw(st.integers(0, 3)), 'other': draw(st.integers(0, 3)),
